@@ -158,9 +158,10 @@ func ZZC05Pat(n int) {
 		_, listed := r.Routes()[pat]
 		zzv.Assert(listed, "pattern:registered-pattern-not-in-Routes")
 		// an accepted pattern does not poison later, unrelated registrations
-		p, _ = zzGuard(func() { r.Handle("/zz/{q}", &hnd{id: 5}, nil, http.MethodPut) })
+		// (the literal part is longer than any symbolic pattern, so the two cannot be ambiguous with each other)
+		p, _ = zzGuard(func() { r.Handle("/zzzzzzzzz/{q}", &hnd{id: 5}, nil, http.MethodPut) })
 		zzv.Assert(!p, "pattern:a-later-valid-registration-panics")
-		o, _ := zzServe(r, zzReq("PUT", "/zz/1"))
+		o, _ := zzServe(r, zzReq("PUT", "/zzzzzzzzz/1"))
 		zzv.Assert(o.id == 5 || (o.node && o.pattern == pat), "pattern:a-later-valid-registration-is-not-served") // (pat itself may have priority)
 	}
 
